@@ -52,7 +52,7 @@ func allLints(f *Func) []LintHit {
 	}
 	for _, m := range MemoKeyMismatches(f) {
 		out = append(out, LintHit{"memo", fmt.Sprintf("%s#memo(%s)", f.Name, m.Map.Name()), m.Store.Pos(),
-			fmt.Sprintf("set %s is tested under key %s but filled under key %s", m.Map.Name(), types.ExprString(m.Lookup), types.ExprString(m.Store))})
+			fmt.Sprintf("set %s is tested under key %s but filled under key %s%s", m.Map.Name(), types.ExprString(m.Lookup), types.ExprString(m.Store), sameTextNote(m.Lookup, m.Store))})
 	}
 	for _, p := range SelfRecursionDrops(f) {
 		out = append(out, LintHit{"recursion", f.Name + "#recursion-guard", f.Decl.Pos(), p})
@@ -226,6 +226,53 @@ func BareBreaks(f *Func) []BareBreak {
 			}
 			return true
 		})
+		// per-iteration locals computed from the element alone (attr := obj.Attribute(nat.Name)) inspect the current
+		// element just as the loop variables do
+		for _, st := range rs.Body.List {
+			as, ok := st.(*ast.AssignStmt)
+			if !ok || as.Tok != token.DEFINE {
+				continue
+			}
+			fromElem, fromState := false, false
+			for _, r := range as.Rhs {
+				ast.Inspect(r, func(m ast.Node) bool {
+					if id, ok := m.(*ast.Ident); ok {
+						if o := info.Uses[id]; o != nil {
+							if loopVars[o] {
+								fromElem = true
+							} else if assigned[o] {
+								fromState = true
+							}
+						}
+					}
+					return true
+				})
+			}
+			if fromElem && !fromState {
+				for _, l := range as.Lhs {
+					if id, ok := l.(*ast.Ident); ok {
+						if o := info.Defs[id]; o != nil {
+							// only if it is not assigned again elsewhere in the loop
+							n := 0
+							ast.Inspect(rs.Body, func(m ast.Node) bool {
+								if a2, ok := m.(*ast.AssignStmt); ok {
+									for _, l2 := range a2.Lhs {
+										if id2, ok := l2.(*ast.Ident); ok && info.ObjectOf(id2) == o {
+											n++
+										}
+									}
+								}
+								return true
+							})
+							if n == 1 {
+								loopVars[o] = true
+								delete(assigned, o)
+							}
+						}
+					}
+				}
+			}
+		}
 		for _, st := range rs.Body.List {
 			is, ok := st.(*ast.IfStmt)
 			if !ok || is.Else != nil || len(is.Body.List) != 1 {
@@ -2686,4 +2733,11 @@ func ConsumedArgs(f *Func) []ConsumedArg {
 		return true
 	})
 	return out
+}
+
+func sameTextNote(a, b ast.Expr) string {
+	if types.ExprString(a) == types.ExprString(b) {
+		return " (the same text, but one of its identifiers is a different variable at the two places: a declaration in between shadows it)"
+	}
+	return ""
 }
